@@ -18,7 +18,7 @@ EXPLANATION = ('each case is executed on src/mbi/factor.py in-process and on the
                'cell by cell, and independently against the pointwise by-name specification')
 
 EXACT_BIN = ['add', 'mul', 'sub', 'div', 'iadd', 'imul']
-EXACT_UN = ['sum', 'max', 'project', 'transpose', 'expand', 'condition', 'copy', 'sum_all', 'max_all',
+EXACT_UN = ['sum', 'max', 'project', 'transpose', 'expand', 'condition', 'condition', 'condition', 'project', 'expand', 'copy', 'sum_all', 'max_all',
             'mul_scalar', 'add_scalar', 'sub_scalar', 'div_scalar', 'iadd_scalar', 'imul_scalar']
 FLOAT_BIN = ['logaddexp']
 FLOAT_UN = ['logsumexp', 'project_lse', 'exp', 'log', 'logsumexp_all']
@@ -252,7 +252,7 @@ def compare(resp, out, k):
             return None if out[0] == 'raise' else f'model rejects, implementation returns {out[0]}'
         return 'driver error: ' + resp['err']
     if out[0] == 'raise':
-        return f'implementation raises {out[1]}, model returns a value'
+        return f'RAISES: implementation raises {out[1]} on an input the model (and the documented preconditions) accept'
     o = resp['out']
     if out[0] == 'scalar':
         mv = dec_q(o['val']) if k == 'q' else dec_f(o['val'])
@@ -298,7 +298,12 @@ def gen_case(r):
         if fn in ('div', 'iadd', 'imul'):
             # other must live inside self's domain (else the real code asserts) - mostly valid, sometimes not
             fdom = [tuple(x) for x in f['dom']]
-            if r.random() < 0.85:
+            u_ = r.random()
+            if u_ < 0.3 and len(fdom) >= 2:
+                # the same attribute set in another order
+                perm = r.sample(fdom, len(fdom))
+                g = gen_factor(r, perm, len(perm), floaty)
+            elif u_ < 0.85:
                 g = gen_factor(r, fdom, 0, floaty)
             else:
                 g = gen_factor(r, dom, 0, floaty)
@@ -368,7 +373,9 @@ def run(res, drv, tier, seed):
         if resp is None:
             continue
         d = compare(resp, out, k)
-        if d is not None:
+        if d is not None and d.startswith('RAISES'):
+            res.violation('failing-input', f'Factor.{fn}: {d[8:]}', dict(replay, model=resp), key=f'factor.{fn}:raises')
+        elif d is not None:
             res.violation('correspondence', f'Factor.{fn}: model and implementation differ ({d}); '
                           'the by-name specification holds on this input', dict(replay, model=resp, stream='C14.factor'))
     run_cliquevector(res, drv, tier, seed)
